@@ -30,11 +30,21 @@ def tag_text(name, rule, v="("):
     return '<block name="%s" v="%s" %s>' % (name, v, RULES[rule])
 
 
+EDIT_STYLE = "replace"     # how the OLD spelling of a one-character edit differs: replace | delete | insert
+
+
+def _was(ch="("):
+    """The old text at the position of the edited character: another character (the edit replaced it), that character
+    preceded by one that the edit deleted, or nothing (the edit inserted it).  The changed range in the NEW line is
+    the same one-character range in all three cases."""
+    return {"replace": ")", "delete": "x" + ch, "insert": ""}[EDIT_STYLE]
+
+
 def s_line(lay, name, rule, kind=None, old=False):
     """Text of the start-tag line; `kind`/`old` select the pre-edit spelling for an M op."""
-    v = ")" if (kind == "attr" and old) else "("
-    n = ")n" if (kind == "cmtB" and old) else "(n" if kind == "cmtB" else "nn"
-    m = ")m" if (kind == "cmtA" and old) else "(m" if kind == "cmtA" else "mm"
+    v = _was() if (kind == "attr" and old) else "("
+    n = _was() + "n" if (kind == "cmtB" and old) else "(n" if kind == "cmtB" else "nn"
+    m = _was() + "m" if (kind == "cmtA" and old) else "(m" if kind == "cmtA" else "mm"
     tag = tag_text(name, rule, v)
     if lay == "mb":
         # 24 two-byte characters before the tag: character columns and byte columns differ by 24
@@ -52,13 +62,13 @@ def s_line(lay, name, rule, kind=None, old=False):
 
 def c_line_mltag(rule, kind=None, old=False):
     """second line of the two-line start tag: attribute w, the rule, '>' and comment text"""
-    w = ")" if (kind == "attr2" and old) else "("
-    m = ")m" if (kind == "cmtA2" and old) else "(m" if kind == "cmtA2" else "mm"
+    w = _was() if (kind == "attr2" and old) else "("
+    m = _was() + "m" if (kind == "cmtA2" and old) else "(m" if kind == "cmtA2" else "mm"
     return '  w="%s" %s> %s */' % (w, RULES[rule], m)
 
 
 def e_line(lay, kind=None, old=False):
-    m = ")m" if (kind == "endcmt" and old) else "(m" if kind == "endcmt" else "mm"
+    m = _was() + "m" if (kind == "endcmt" and old) else "(m" if kind == "endcmt" else "mm"
     if lay == "mltag":
         return "/* </block> %s */" % m
     if lay in ("line", "mb"):
@@ -118,6 +128,8 @@ def code_text(ch):
 
 def concretize(case, rule, variant=0):
     """-> dict(old=[lines], new=[lines], entries=[(op, old_text|None, new_text|None)], unreliable=bool)"""
+    global EDIT_STYLE
+    EDIT_STYLE = ("replace", "delete", "insert")[variant % 3]
     ops, blocks = case["ops"], case["blocks"]
     n = len(ops)
     role = {}
